@@ -356,6 +356,28 @@ def ends_with_shape(strcc):
     raise ValueError("StrEndsWith: comparison shape not recognised (must be a compare of the last |suffix| characters)")
 
 
+def read_value_coverage(repo):
+    """every `Severity <Class>::ReadValue( istream & … )` of src/clstepcore is one of the three element loops whose delete sites
+    are modelled, or hands the whole call to STEPaggregate::ReadValue without creating or deleting a node itself"""
+    loops = {"STEPaggregate", "EntityAggregate", "SelectAggregate"}
+    delegating = []
+    d = os.path.join(repo, "src/clstepcore")
+    for f in sorted(os.listdir(d)):
+        if not f.endswith(".cc"):
+            continue
+        text = _strip(open(os.path.join(d, f)).read())
+        for m in re.finditer(r"Severity\s+(\w+)::ReadValue\s*\(\s*istream", text):
+            cls = m.group(1)
+            if cls in loops:
+                continue
+            body = _ws(_body(text[m.start():], r"Severity\s+" + cls + r"::ReadValue\s*\(", cls + "::ReadValue"))
+            if not re.search(r"returnSTEPaggregate::ReadValue\(in,err,", body) or re.search(r"\bnew\b|delete|NewNode|AddNode", body):
+                raise ValueError(f"{cls}::ReadValue ({f}): an aggregate reader that is neither one of the three modelled element "
+                                 "loops nor a plain delegation to STEPaggregate::ReadValue - its node ownership is not modelled")
+            delegating.append(cls)
+    return delegating
+
+
 def read_pcd_shape(rf):
     """ReadPcd must have the modelled shape: three `in.get( c )`, nothing read after the closing backslash"""
     b = _ws(_strip(_body(rf, r"Severity\s+ReadPcd\s*\(", "ReadPcd")))
@@ -731,6 +753,7 @@ def extract(repo):
         ("src/clstepcore/STEPaggrEntity.cc", r"Severity\s+EntityAggregate::ReadValue\s*\(", "EntityAggregate::ReadValue"),
         ("src/clstepcore/STEPaggrSelect.cc", r"Severity\s+SelectAggregate::ReadValue\s*\(", "SelectAggregate::ReadValue")]]
     read_pcd_shape(rf)
+    rv_deleg = read_value_coverage(repo)
     ews = ends_with_shape(strcc)
     mcl, rc_iters = read_comment(rf, rh, env)
     mec = max_errors(inl, sf)
@@ -799,6 +822,9 @@ def strEndsWithShape : EndsWithShape := {ews}
 def aggrDeletes : DelCfg := {ad[0]}
 def entityAggrDeletes : DelCfg := {ad[1]}
 def selectAggrDeletes : DelCfg := {ad[2]}
+/-- the other `ReadValue` definitions of src/clstepcore: they hand the call to `STEPaggregate::ReadValue` and touch no node
+(anything else makes the extractor fail: the three tables above then no longer cover the aggregate readers) -/
+def readValueDelegating : List String := [{', '.join('"' + x + '"' for x in rv_deleg)}]
 
 /-- `GetKeyword` accepts `&` as a keyword character (false: `&SCOPE` is never recognised, CreateScopeInstances always takes
 its first error exit, CreateInstance returns ENTITY_NULL) -/
